@@ -402,7 +402,8 @@ func (ex *Exec) symVal(st *State, name string, t types.Type, depth int) Val {
 			ex.Assumes = append(ex.Assumes, ex.geZero(l))
 			return StringV{Id: ex.declInput(name+"!str", IntSort), Len: l}
 		}
-		ex.reject("unsupported basic type %s for %s", t, name)
+		// floats, complex, unsafe.Pointer: carried around as opaque values (any operation on them rejects)
+		return OpaqueV{Typ: t, Id: ex.declInput(name+"!opq", IntSort)}
 	case *types.Struct:
 		sv := StructV{Typ: t}
 		for i := 0; i < u.NumFields(); i++ {
